@@ -58,6 +58,7 @@ def eventV2__newEventFromTrustedJSONV2 : List String := [
   "res.roomVersion = roomVersion.Version()",
   "res.redacted = redacted",
   "res.eventJSON = eventJSON",
+  "res.EventIDRaw = \"\"",
   "if err := res.populateEventID(roomVersion); err != nil {",
   "return nil, err",
   "}",
@@ -87,6 +88,9 @@ def eventV2__newEventFromUntrustedJSONV2 : List String := [
   "}",
   "if err := roomVersion.CheckCanonicalJSON(eventJSON); err != nil {",
   "return nil, BadJSONError{err}",
+  "}",
+  "if err := checkUntrustedEventJSON(eventJSON); err != nil {",
+  "return nil, err",
   "}",
   "res := &eventV2{}",
   "var err error",
@@ -226,16 +230,16 @@ def eventV2_eventV2_SetUnsigned : List String := [
 
 def eventV2_eventV2_Sign : List String := [
   "func func(signingName string, keyID KeyID, privateKey ed25519.PrivateKey) PDU",
-  "eventJSON, err := signEvent(signingName, keyID, privateKey, e.eventJSON, e.roomVersion)",
+  "eventJSON, err := signEvent(signingName, keyID, privateKey, signableEventJSON(e.eventJSON), e.roomVersion)",
   "if err != nil {",
   "panic(fmt.Errorf(\"gomatrixserverlib: invalid event %v (%q)\", err, string(e.eventJSON)))",
   "}",
   "if eventJSON, err = EnforcedCanonicalJSON(eventJSON, e.roomVersion); err != nil {",
   "panic(fmt.Errorf(\"gomatrixserverlib: invalid event %v (%q)\", err, string(e.eventJSON)))",
   "}",
-  "res := &e",
-  "(*res).eventJSON = eventJSON",
-  "return *res"
+  "result := *e",
+  "result.eventJSON = eventJSON",
+  "return &result"
 ]
 
 def eventV2_eventV2_populateEventID : List String := [
@@ -1018,11 +1022,11 @@ def keyring__StrictValiditySignatureCheck : List String := [
   "return false",
   "}",
   "sevenDaysFuture := time.Now().Add(time.Hour * 24 * 7)",
-  "validUntilTS := validUntil.Time()",
-  "if validUntilTS.After(sevenDaysFuture) {",
-  "validUntilTS = sevenDaysFuture",
+  "validUntilTS := validUntil",
+  "if sevenDaysFutureTS := spec.AsTimestamp(sevenDaysFuture); validUntilTS > sevenDaysFutureTS {",
+  "validUntilTS = sevenDaysFutureTS",
   "}",
-  "if atTs.Time().After(validUntilTS) {",
+  "if atTs > validUntilTS {",
   "return false",
   "}",
   "return true"
